@@ -44,6 +44,8 @@ func c17PrimeFor(d protoreflect.MessageDescriptor) []byte {
 	return nil
 }
 
+var c17LastRepairable = map[string][]byte{}
+
 func c17DoPrime(root string, prime []byte) {
 	if len(prime) == 0 {
 		return
@@ -349,8 +351,16 @@ func TestVF_C17_Codec(t *testing.T) {
 	}
 	rapid.Check(t, func(rt *rapid.T) {
 		c := c17Gen(rt)
-		if c.Kind == "failure_invalid" && rapid.IntRange(0, 2).Draw(rt, "primed") == 0 {
-			c.Prime = c17PrimeFor(vfshared.MessageDesc(c.Root))
+		if c.Kind == "failure_invalid" {
+			switch rapid.IntRange(0, 5).Draw(rt, "primed") {
+			case 0, 1:
+				c.Prime = c17PrimeFor(vfshared.MessageDesc(c.Root))
+			case 2, 3:
+				// the previous repairable message of the same type (a different message: nothing of it may show up in
+				// what the codec makes of this one)
+				c.Prime = c17LastRepairable[c.Root]
+			}
+			c17LastRepairable[c.Root] = c.Wire
 		}
 		c17DoPrime(c.Root, c.Prime)
 		v, err := c17Oracle(c.Root, c.Wire)
